@@ -65,9 +65,12 @@ class Env:
             return {"call": 7.0, "level": 3.5, "other": 99.0, "default": 10.0}[layer]
         raise KeyError(opt)
 
-    def cluster_for(self, mode, level):
-        """level: frozenset of options set at profile / session level."""
-        key = (mode, level)
+    def cluster_for(self, mode, level, level_none=False):
+        """level: frozenset of options set at profile / session level.  level_none: the timeout set at that level is
+        an explicit None ("never time out on the client") instead of a number - a value like any other, which must
+        not be mistaken for "not set"."""
+        level_none = bool(level_none and "timeout" in level)
+        key = (mode, level, level_none)
         if key in self.cache:
             return self.cache[key]
         sc, pol, q = self.sc, self.pol, self.q
@@ -100,7 +103,7 @@ class Env:
                 if "serial" in level:
                     kw["serial_consistency_level"] = "SERIAL_PLACEHOLDER"
                 if "timeout" in level:
-                    kw["request_timeout"] = 3.5
+                    kw["request_timeout"] = None if level_none else 3.5
                 if "rowf" in level:
                     kw["row_factory"] = q.tuple_factory
                 if "spec" in level:
@@ -127,7 +130,7 @@ class Env:
         s = c.connect()
         if mode == "legacy":
             if "timeout" in level:
-                s.default_timeout = 3.5
+                s.default_timeout = None if level_none else 3.5
             if "cl" in level:
                 s.default_consistency_level = self.CL.QUORUM
             if "rowf" in level:
@@ -155,7 +158,8 @@ def evaluate(env, st, again=False):
     sets = {o: frozenset(st["set"][o]) for o in st["set"]}
     winner = dict(st["winner"])
     level = frozenset(o for o in sets if "level" in sets[o])
-    c, s, objs = env.cluster_for(mode, level)
+    level_none = bool(st["callNone"]) and "timeout" in level and "call" not in sets["timeout"]
+    c, s, objs = env.cluster_for(mode, level, level_none)
     # serial level value depends on the winner: set it on the profile / session now
     ser_level = env.value("serial", "level", winner["serial"]) if "serial" in level else None
     if mode == "legacy":
@@ -192,7 +196,7 @@ def evaluate(env, st, again=False):
         query.is_idempotent = True
     timeout = env.cl._NOT_SET
     if "call" in sets["timeout"]:
-        timeout = None if st["callNone"] else 7.0
+        timeout = None if st["callNone"] else 7.0      # (callNone names the highest configured layer: here the call's)
     ep = "named" if mode == "profile_named" else env.cl.EXEC_PROFILE_DEFAULT
     legacy_saved = None
     if again:
@@ -245,7 +249,8 @@ def evaluate(env, st, again=False):
         fut._cancel_timer()
     exp = {}
     w = winner["timeout"]
-    exp["timeout"] = (None if st["callNone"] else 7.0) if w == "call" else env.value("timeout", w, w)
+    exp["timeout"] = (None if st["callNone"] else 7.0) if w == "call" else \
+        (None if (w == "level" and level_none) else env.value("timeout", w, w))
     exp["cl"] = exp["cl_wire"] = env.value("cl", winner["cl"], winner["cl"])
     exp["serial"] = exp["serial_wire"] = env.value("serial", winner["serial"], winner["serial"])
     w = winner["retry"]
